@@ -2487,6 +2487,30 @@ def divergence_oracle(pid, c, io, mo):
     property the stream decides; a rounding-sized one is only a broken tie (returns None)."""
     if pid == "C05" and c.kind == "solve-trace" and c.meta.get("integ") == 0:
         return div_ros_trace(c, io, mo)
+    if pid in ("C14", "C12") and c.kind == "bsolve":
+        return div_by_name(c, io, mo)
+    return None
+
+def div_by_name(c, io, mo):
+    """by-name Build + Solve: implementation and model both Converged on the same problem, yet a species' concentration
+    differs far beyond the tolerances both were asked to meet -- the solution reported under that NAME is not the solution
+    of the mechanism as declared (the model's is: C14_solution_by_name, C01, C02)"""
+    si, sm = parse_solve(io or ""), parse_solve(mo or "")
+    if si is None or sm is None or si["status"] != "Converged" or sm["status"] != "Converged":
+        return None
+    if len(si["y"]) != len(sm["y"]) or explosive(c.meta["y"], si["y"]) or explosive(c.meta["y"], sm["y"]):
+        return None
+    m = c.meta; ns = m["ns"]
+    scale = max([abs(v) for v in sm["y"] if v == v] + [1e-300])
+    nst = max(si["stats"]["steps"], sm["stats"]["steps"], 1)
+    for q, (u, v) in enumerate(zip(si["y"], sm["y"])):
+        if u != u or v != v:
+            continue
+        at = m["atol"][q % ns] if m["atol"][q % ns] > 0 else 1e-3
+        allow = 1e3 * nst * (at + m["rtol"] * max(abs(u), abs(v))) + 1e-6 * scale
+        if abs(u - v) > allow:
+            return (f"by-name solve: species s{q % ns} in cell {q // ns} is {u!r}; the mechanism as declared gives {v!r} (both runs Converged; "
+                    f"difference {abs(u - v):.3e} > {allow:.3e} = 1000 x steps x (atol + rtol|y|)) [{m.get('cfg')}]")
     return None
 
 def div_ros_trace(c, io, mo):
